@@ -28,9 +28,9 @@ func init() {
 				Blocks:   16,
 				Procs:    16,
 				Rule: "(a) deterministic runs: buffer sizes 2..64 and a few large ones, streams whose number of distinct values is below, at and far above the size, every value repeated 1..4 times in interleaved order, Reset at random points; after EVERY Add: Count == exact number of distinct values while fewer than size distinct values have been added since creation/Reset, Len <= size, Count == Len * 2^j with j an integer that never decreases until Reset; after Reset: Len == 0, Count == 0 and the exact regime again. " +
-					"(b) statistical configurations (size, D): sizes 8, 16, 64 with D below, 10x and 100x the size using R = 4000 (40000 thorough) independent seeded counters each, sizes 4, 5, 6 with D = 48 and 600 using R = 200000 (larger R because the estimator is more skewed there), sizes 64..256 with enough distinct values for many halving rounds, and scripted streams that sit just above capacity with the zero value of the element type at the critical position (first Add after the buffer fills, first Add overall, back-to-back repeats); the fixed stream repeats every value 1..3 times, interleaved; |mean(Count) - D| <= 7 * sd/sqrt(R) + 0.002 * D. Sizes 2 and 3 get the deterministic clauses only (estimator too heavy-tailed for a CLT-based tolerance). " +
+					"(b) statistical configurations (size, D): sizes 8, 16, 64 with D below, 10x and 100x the size using R = 4000 (40000 thorough) independent seeded counters each, sizes 4, 5, 6 with D = 48 and 600 using R = 200000 (larger R because the estimator is more skewed there), sizes 64..256 with enough distinct values for many halving rounds, and scripted streams that sit just above capacity with the zero value of the element type at the critical position (first Add after the buffer fills, first Add overall, back-to-back repeats), and streams counted after a Reset that followed a long run far above capacity; the fixed stream repeats every value 1..3 times, interleaved; |mean(Count) - D| <= 7 * sd/sqrt(R) + 0.002 * D. Sizes 2 and 3 get the deterministic clauses only (estimator too heavy-tailed for a CLT-based tolerance). " +
 					"All randomness derives from VERIF_SEED. distinct = hash(size, stream, seed) of deterministic runs + one per statistical configuration; non-trivial = the run went above capacity (at least one halving)",
-				Required:     []string{"deterministic_runs", "adds_checked", "exact_regime_checks", "halvings_observed", "resets", "statistical_configs", "statistical_runs", "runs_with_repeats_above_capacity"},
+				Required:     []string{"deterministic_runs", "adds_checked", "exact_regime_checks", "halvings_observed", "resets", "statistical_configs", "statistical_runs", "runs_with_repeats_above_capacity", "resets_on_empty_buffer"},
 				Assumptions:  []string{"CLT tolerance: 7 sample standard errors + 0.2 % of D; measured skewness is reported in the evidence (|skew| * 343 / (6 sqrt(R)) stays below 1, so the normal tail 2.6e-12 is off by a small factor only)", "the hook distinct.VerifReseed only replaces the random source of a counter built by NewCounter"},
 				CoverPkgs:    []string{"github.com/creachadair/mds/distinct"},
 				CoverAnchors: []string{"distinct/distinct.go:NewCounter", "distinct/distinct.go:Add", "distinct/distinct.go:Count", "distinct/distinct.go:Len", "distinct/distinct.go:Reset"},
@@ -163,6 +163,32 @@ func c19det(c *fw.Ctx, r *rand.Rand, caseNo int) {
 		}
 		lastJ = j
 	}
+	// Reset while the buffer is empty but the counter is in the sampling regime
+	// (re-offering values that were seen can empty the buffer): Reset must still
+	// restore the exact regime.
+	if size <= 10 && !exact && len(log) > 0 {
+		for tries := 0; tries < 4000 && ctr.Len() > 0; tries++ {
+			v := log[r.IntN(len(log))]
+			if v >= 0 {
+				ctr.Add(v)
+			}
+		}
+		if ctr.Len() == 0 {
+			c.Add("resets_on_empty_buffer", 1)
+			ctr.Reset()
+			ctr.Add(12345)
+			if ctr.Count() != 1 || ctr.Len() != 1 {
+				fail("after Reset (called while the buffer was empty in the sampling regime) and one Add: Count=%d Len=%d, want the exact regime (1, 1)", ctr.Count(), ctr.Len())
+				return
+			}
+			ctr.Add(12346)
+			ctr.Add(12345)
+			if size > 2 && ctr.Count() != 2 {
+				fail("after Reset and Adds of 2 distinct values: Count=%d", ctr.Count())
+				return
+			}
+		}
+	}
 	c.Add("deterministic_runs", 1)
 	if repeatsAbove {
 		c.Add("runs_with_repeats_above_capacity", 1)
@@ -207,6 +233,14 @@ func c19stat(c *fw.Ctx, cfg c19cfg, cfgNo int) {
 		if cfg.D <= cfg.Size {
 			stream = append(stream, 0)
 		}
+	case "reset-then-stream":
+		// handled below: a first stream far above capacity, Reset, then this stream
+		for v := 0; v < cfg.D; v++ {
+			stream = append(stream, v)
+			if v%3 == 0 {
+				stream = append(stream, v)
+			}
+		}
 	case "zero-first":
 		for v := 0; v < cfg.D; v++ {
 			stream = append(stream, v)
@@ -222,6 +256,12 @@ func c19stat(c *fw.Ctx, cfg c19cfg, cfgNo int) {
 	for run := 0; run < cfg.R; run++ {
 		ctr := distinct.NewCounter[int](cfg.Size)
 		distinct.VerifReseed(ctr, c19seed(c.Seed, uint64(cfgNo)<<32|uint64(run), 0xc19))
+		if cfg.Kind == "reset-then-stream" {
+			for v := 0; v < 40*cfg.Size; v++ {
+				ctr.Add(1000000 + v) // drives the counter through several halving rounds
+			}
+			ctr.Reset()
+		}
 		for _, v := range stream {
 			ctr.Add(v)
 		}
@@ -293,6 +333,7 @@ func runC19(c *fw.Ctx) {
 		{64, 65536, R / 8, ""}, {100, 20000, R / 4, ""}, {128, 30000, R / 4, ""}, {256, 20000, R / 4, ""},
 		// just above capacity, with the zero value of the element type at the critical position
 		{8, 9, 10 * R, "fill-then-zero"}, {8, 16, 10 * R, "fill-then-zero"}, {16, 17, 10 * R, "fill-then-zero"}, {4, 5, Rs / 2, "fill-then-zero"},
+		{8, 80, R, "reset-then-stream"}, {16, 400, R, "reset-then-stream"}, {64, 2000, R, "reset-then-stream"}, {64, 40, R, "reset-then-stream"},
 		{8, 12, 10 * R, "zero-first"}, {16, 40, 10 * R, "ascending-pairs"}, {8, 9, 10 * R, "ascending-pairs"}, {64, 65, 4 * R, "fill-then-zero"},
 	}
 	for i, cfg := range cfgs {
